@@ -106,6 +106,33 @@ def _wrap(fn):
     return op
 
 
+def _other(o):
+    """Decimal of the other operand, or None (-> NotImplemented, so that
+    e.g. HP + Dual reaches Dual.__radd__)."""
+    try:
+        return _dec(o)
+    except TypeError:
+        return None
+
+
+def _binop(fn):
+    def op(self, o):
+        od = _other(o)
+        if od is None:
+            return NotImplemented
+        try:
+            return fn(self.x, od)
+        except decimal.DecimalException as exc:
+            raise HPError(type(exc).__name__) from None
+    return op
+
+
+def _div(a, b):
+    if b == 0:
+        raise ZeroDivisionError("HP division by zero")
+    return HP(_CTX.divide(a, b))
+
+
 class HP:
     __slots__ = ("x",)
 
@@ -123,38 +150,20 @@ class HP:
 
     __hash__ = None
 
-    @_wrap
-    def __add__(self, o):
-        return HP(_CTX.add(self.x, _dec(o)))
-
-    __radd__ = __add__
-
-    @_wrap
-    def __sub__(self, o):
-        return HP(_CTX.subtract(self.x, _dec(o)))
-
-    @_wrap
-    def __rsub__(self, o):
-        return HP(_CTX.subtract(_dec(o), self.x))
-
-    @_wrap
-    def __mul__(self, o):
-        return HP(_CTX.multiply(self.x, _dec(o)))
-
-    __rmul__ = __mul__
-
-    @_wrap
-    def __truediv__(self, o):
-        d = _dec(o)
-        if d == 0:
-            raise ZeroDivisionError("HP division by zero")
-        return HP(_CTX.divide(self.x, d))
-
-    @_wrap
-    def __rtruediv__(self, o):
-        if self.x == 0:
-            raise ZeroDivisionError("HP division by zero")
-        return HP(_CTX.divide(_dec(o), self.x))
+    __add__ = __radd__ = _binop(lambda a, b: HP(_CTX.add(a, b)))
+    __sub__ = _binop(lambda a, b: HP(_CTX.subtract(a, b)))
+    __rsub__ = _binop(lambda a, b: HP(_CTX.subtract(b, a)))
+    __mul__ = __rmul__ = _binop(lambda a, b: HP(_CTX.multiply(a, b)))
+    __truediv__ = _binop(lambda a, b: _div(a, b))
+    __rtruediv__ = _binop(lambda a, b: _div(b, a))
+    __pow__ = _binop(lambda a, b: hp_pow(a, b))
+    __rpow__ = _binop(lambda a, b: hp_pow(b, a))
+    __lt__ = _binop(lambda a, b: a < b)
+    __le__ = _binop(lambda a, b: a <= b)
+    __gt__ = _binop(lambda a, b: a > b)
+    __ge__ = _binop(lambda a, b: a >= b)
+    __eq__ = _binop(lambda a, b: a == b)
+    __ne__ = _binop(lambda a, b: a != b)
 
     def __neg__(self):
         return HP(_CTX.minus(self.x))
@@ -164,37 +173,6 @@ class HP:
 
     def __abs__(self):
         return HP(_CTX.abs(self.x))
-
-    def __pow__(self, o):
-        return hp_pow(self, o)
-
-    def __rpow__(self, o):
-        return hp_pow(HP(o), self)
-
-    def _cmp(self, o):
-        return self.x.compare(_dec(o))
-
-    def __lt__(self, o):
-        return self.x < _dec(o)
-
-    def __le__(self, o):
-        return self.x <= _dec(o)
-
-    def __gt__(self, o):
-        return self.x > _dec(o)
-
-    def __ge__(self, o):
-        return self.x >= _dec(o)
-
-    def __eq__(self, o):
-        try:
-            return self.x == _dec(o)
-        except TypeError:
-            return NotImplemented
-
-    def __ne__(self, o):
-        r = self.__eq__(o)
-        return r if r is NotImplemented else not r
 
 
 def _is_integral(d):
